@@ -29,8 +29,9 @@ claim('C11',
       'ast def-use chase of axis arguments through tuple-returning callees; must-taint seed dataflow',
       'DESIGN.md 4 (K/N1, S), 5 C11')
 claim('C18',
-      'Decides two certain-defect clauses for the catalogue modules: no self-cancelling `a / b*b` normalisation (K2) and '
-      'no unguarded x*log x in the closed-form Werner/isotropic expressions (F1). Normalisation/PSD/PPT of each constructor '
+      'Decides certain-defect clauses for the catalogue modules: no self-cancelling `a / b*b` normalisation (K2); no unguarded x*log x '
+      'in the closed-form Werner/isotropic expressions (F1) and their masked updates stay in one index space (MS1); a `return_dm` '
+      'option returns the outer product of the very ket returned without it (RD1). Normalisation/PSD/PPT of each constructor '
       'is value-level and NOT decided.',
       'Trusted: Python operator precedence; the enumerated guard idioms of F1.',
       'ast pattern + guard reaching-definitions with interval analysis',
